@@ -112,6 +112,20 @@ def isolation(ctx, crate, crs, tag):
     if b is None:
         ctx.ob(R, SOLVER + "run_sat", "exists", False, "", "run_sat not found")
         return
+    # a run propagates only inside its decision loop, after its solvable was encoded: the first level of a run holds the run's
+    # solvable *and* everything its clauses force, so a conflict there is a clean rejection handled by run_sat_process_unsolvable.
+    # An extra propagation before the first encode (seed C14-15) pushes those consequences one level up, where the same conflict
+    # goes through analyze() and its backjump (see the known finding below) instead.
+    props = [i for i, t in b.calls() if t.get("f") and SOLVER + "propagate" in callee_keys(t["f"])]
+    encs = [i for i, t in b.calls() if t.get("f") and t["f"]["name"] == "block_on"]
+    decs = [i for i, t in b.calls() if t.get("f") and t["f"]["name"] == "try_add_decision"]
+    between = set()
+    for d_ in decs:
+        between |= b.reachable_after(d_, avoid=encs)
+    ok_p = bool(props) and bool(encs) and bool(decs) and not (set(props) & between)
+    ctx.ob(R, b.key, "no-propagation-between-the-run's-decision-and-its-encoding", ok_p, b.loc(),
+           "no propagate call is reachable from the decision of the run's solvable without passing an encode first "
+           "(%d propagate, %d encode, %d decision site(s) in run_sat)" % (len(props), len(encs), len(decs)))
     sl, slbb = starting_level_local(b)
     ctx.ob(R, b.key, "starting_level=level-of-last-decision-or-0", sl is not None, b.loc(),
            "starting_level is derived from the last decision on the trail (0 for an empty trail)")
